@@ -11,6 +11,7 @@ import (
 	"github.com/golang-jwt/jwt/v4"
 	"net/http"
 	"net/url"
+	"strconv"
 	"strings"
 	"testing"
 	"time"
@@ -49,6 +50,10 @@ type tokStep struct {
 	// Neither says anything about who is asking.
 	Method    string `json:"method,omitempty"`
 	Preflight bool   `json:"cors_preflight_headers,omitempty"`
+	// pair: two requests are inside the deployment at once - request A presents the token of login Login, request B the token of
+	// login Other (-1: none). Order says which of them moves at each decision point (token decode, arrival at the application).
+	Other int   `json:"other_login,omitempty"`
+	Order []int `json:"order,omitempty"`
 }
 
 var tokKinds = []string{"valid", "valid", "valid", "tracking", "other-deployment", "alg-none", "hs256-pem", "hs256-der", "claims-edit", "header-edit", "truncated", "bitflip", "empty", "garbage", "mallory-signed", "wrong-cookie-name",
@@ -121,6 +126,20 @@ func genTokens(g *Rng, tier string) *Plan {
 			steps = append(steps, tokStep{Kind: "jump", Ms: 0})
 		}
 	}
+	if g.Bool(0.3) {
+		// two requests in flight at once (every web server runs handlers concurrently): each is judged by its own token
+		if nlogins < 2 {
+			steps = append(steps, tokStep{Kind: "login", User: g.Intn(16)})
+			nlogins++
+		}
+		for q, n := 0, 1+g.Intn(2); q < n; q++ {
+			ps := tokStep{Kind: "pair", Login: g.Intn(nlogins), Other: Pick(g, -1, g.Intn(nlogins), g.Intn(nlogins)), Path: Pick(g, "/page", "/page", "/gated/x")}
+			for i := 0; i < 12; i++ {
+				ps.Order = append(ps.Order, g.Intn(2))
+			}
+			steps = append(steps, ps)
+		}
+	}
 	for _, s := range steps {
 		p.Steps = append(p.Steps, mustJSON(s))
 	}
@@ -133,6 +152,53 @@ type loginRec struct {
 	tracking string // a tracking token minted by the same deployment
 	other    string // a session token minted by the other deployment for the same user
 	mintedAt time.Time
+}
+
+// c16RunPair runs the requests as cooperating tasks: one moves at a time, from one decision point (mwYield) to the next, and
+// order says which one (index into the tasks still running, cyclically).
+func c16RunPair(reqs []func(), order []int) {
+	type task struct {
+		wake chan struct{}
+		done bool
+	}
+	tasks := make([]*task, len(reqs))
+	back := make(chan struct{})
+	cur := -1
+	mwYield = func(string) {
+		t := tasks[cur]
+		back <- struct{}{}
+		<-t.wake
+	}
+	for i := range reqs {
+		t := &task{wake: make(chan struct{})}
+		tasks[i] = t
+		i := i
+		go func() {
+			<-t.wake
+			reqs[i]()
+			t.done = true
+			back <- struct{}{}
+		}()
+	}
+	for step := 0; ; step++ {
+		var runnable []int
+		for i, t := range tasks {
+			if !t.done {
+				runnable = append(runnable, i)
+			}
+		}
+		if len(runnable) == 0 {
+			break
+		}
+		pick := 0
+		if len(order) > 0 {
+			pick = order[step%len(order)] % len(runnable)
+		}
+		cur = runnable[pick]
+		tasks[cur].wake <- struct{}{}
+		<-back
+	}
+	mwYield = nil
 }
 
 func b64url(b []byte) string { return base64.RawURLEncoding.EncodeToString(b) }
@@ -215,6 +281,15 @@ func execTokens(t *testing.T, p *Plan) *Result {
 	}
 	deploys[0].nestBehind(deploys[1])
 	d := deploys[0]
+	// the target's session codec is wrapped: a token decode is a decision point of the two-request schedules ("pair" steps)
+	switch sp := d.mw.Session.(type) {
+	case samlsp.CookieSessionProvider:
+		sp.Codec = yieldCodec{sp.Codec}
+		d.mw.Session = sp
+	case *samlsp.CookieSessionProvider:
+		sp.Codec = yieldCodec{sp.Codec}
+	}
+	defer func() { mwYield = nil }()
 	life := ms(k.LifetimeMs)
 	if k.LifetimeMs == 0 {
 		life = time.Hour // the documented default session lifetime of the middleware
@@ -290,6 +365,72 @@ func execTokens(t *testing.T, p *Plan) *Result {
 			}
 			logins = append(logins, &loginRec{user: st.User % len(users), token: tok, tracking: trk, other: oth, mintedAt: time.Now()})
 			res.logf("step %d login user %d -> login %d", si, st.User%len(users), len(logins)-1)
+		case "pair":
+			if st.Login >= len(logins) || st.Other >= len(logins) {
+				continue
+			}
+			type side struct {
+				tag   string
+				login int
+			}
+			sides := []side{{"A", st.Login}, {"B", st.Other}}
+			now := time.Now()
+			cookieName := d.sessionCookieName()
+			reps := make([]*reply, 2)
+			var reqs []func()
+			for qi, sd := range sides {
+				qi, sd := qi, sd
+				var cookies []*http.Cookie
+				if sd.login >= 0 {
+					cookies = []*http.Cookie{{Name: cookieName, Value: logins[sd.login].token}}
+				}
+				reqs = append(reqs, func() { reps[qi] = deliver(d.handler, "GET", d.base+st.Path+"?req="+sd.tag, "", "", cookies) })
+			}
+			hitsBefore, gatedBefore := len(d.hits), len(d.gated)
+			c16RunPair(reqs, st.Order)
+			res.probe("two-requests-in-flight")
+			res.Nontrivial = true
+			for qi, sd := range sides {
+				if reps[qi] == nil || reps[qi].Panic != nil {
+					res.Excluded = "panic (reported under C09)"
+					return res
+				}
+				var seen *appHit
+				for _, hs := range [][]appHit{d.hits[hitsBefore:], d.gated[gatedBefore:]} {
+					for i := range hs {
+						if strings.HasSuffix(hs[i].URL, "req="+sd.tag) {
+							seen = &hs[i]
+						}
+					}
+				}
+				observed := "NO_SESSION"
+				if seen != nil {
+					observed = "AUTHENTICATED as " + strconv.Quote(seen.Subject)
+				}
+				if sd.login < 0 {
+					res.logf("step %d pair %s presents nothing -> %s", si, sd.tag, observed)
+					if seen != nil {
+						res.violate(si, "foreign-or-stale-token-authenticates", "C16/authenticated/no-token/beside-another-request", "NO_SESSION", observed, "the other request in flight presented a token")
+						return res
+					}
+					continue
+				}
+				l := logins[sd.login]
+				age := now.Sub(l.mintedAt)
+				res.logf("step %d pair %s presents the token of login %d (user %d) age-class=%s -> %s", si, sd.tag, sd.login, l.user, ageClass(age, life), observed)
+				if seen != nil && seen.Subject != users[l.user].NameID {
+					res.violate(si, "identity-altered", "C16/identity-altered/two-requests-in-flight", "subject "+strconv.Quote(users[l.user].NameID)+" (the presented token's), or no session", observed, "the other request in flight belongs to somebody else")
+					return res
+				}
+				if seen != nil && (age > life+2*time.Second || age < -2*time.Second) {
+					res.violate(si, "foreign-or-stale-token-authenticates", "C16/authenticated/valid/"+ageClass(age, life)+"/beside-another-request", "NO_SESSION", observed, "")
+					return res
+				}
+				if seen == nil && age >= 0 && age < life-2*time.Second && st.Path != "/gated/x" && reps[qi].Code != 200 {
+					res.violate(si, "valid-token-refused", "C16/valid-token-refused/two-requests-in-flight", "AUTHENTICATED", fmt.Sprintf("status %d", reps[qi].Code), "")
+					return res
+				}
+			}
 		case "present":
 			if st.Login >= len(logins) {
 				continue
